@@ -1,6 +1,8 @@
 import Gimli.Lemmas.Attr
 import Gimli.Lemmas.AttrNormal
 import Gimli.Lemmas.AttrRoundtrip
+import Gimli.Lemmas.AttrConverse
+import Gimli.Lemmas.AttrIndirect
 /-!
 # C03 — Every attribute form decodes to its DWARF value; skipping equals reading
 
@@ -61,6 +63,45 @@ theorem skip_read_same_position (enc : Encoding) (specs : List Spec) (bs : Bytes
   rw [skip_eq_read enc specs bs vs r₁ hr] at hs
   simpa using hs
 
+/-- **`skip_err_of_read_err`: the converse direction as far as it is true.** If reading all the
+attributes fails with an error that is not *read-only* (`ReadOnlyErr`: over-long or overflowing
+LEB128, `DW_FORM_indirect → DW_FORM_implicit_const`, an address size outside 1/2/4/8 — things
+the skipper never looks at), then `skip_attributes` fails with the same error. -/
+theorem skip_err_of_read_err (enc : Encoding) (specs : List Spec) (bs : Bytes) (x : Err)
+    (h : readAttributes enc specs bs = .err x) (hx : ¬ ReadOnlyErr x) :
+    skipAttributes enc specs bs = .err x :=
+  skipLoop_err_of_readAttributes_err enc specs 0 bs x (Nat.zero_le _) (by simpa using h) hx
+
+/-- in particular **skipping never succeeds where reading runs out of input**: the bytes a
+successful skip passes over are all there -/
+theorem skip_eof_of_read_eof (enc : Encoding) (specs : List Spec) (bs : Bytes)
+    (h : readAttributes enc specs bs = .err .rUnexpectedEof) :
+    skipAttributes enc specs bs = .err .rUnexpectedEof :=
+  skip_err_of_read_err enc specs bs _ h (by simp [ReadOnlyErr])
+
+/-- **`skip_ok_read_cases`: the exact converse.** When `skip_attributes` succeeds with rest `r`,
+reading either succeeds with the same `r`, or fails with one of the read-only errors — nothing
+else is possible. (The two witnesses below show that the second case does occur.) -/
+theorem skip_ok_read_cases (enc : Encoding) (specs : List Spec) (bs r : Bytes)
+    (h : skipAttributes enc specs bs = .ok r) :
+    (∃ vs, readAttributes enc specs bs = .ok (vs, r)) ∨
+      (∃ x, readAttributes enc specs bs = .err x ∧ ReadOnlyErr x) := by
+  have hn := readAttributes_normal enc specs bs
+  cases hr : readAttributes enc specs bs with
+  | ok p =>
+    obtain ⟨vs, r'⟩ := p
+    have := skip_eq_read enc specs bs vs r' hr
+    rw [h] at this
+    simp only [Out.ok.injEq] at this
+    exact Or.inl ⟨vs, by rw [this]⟩
+  | err x =>
+    refine Or.inr ⟨x, rfl, ?_⟩
+    refine Classical.byContradiction fun hx => ?_
+    rw [skip_err_of_read_err enc specs bs x hr hx] at h
+    simp at h
+  | panic w => rw [hr] at hn; simp [Out.Normal] at hn
+  | diverge => rw [hr] at hn; simp [Out.Normal] at hn
+
 /-- **The known asymmetry of the converse** (still present at HEAD): `DW_FORM_indirect` resolving
 to `DW_FORM_implicit_const` is rejected by reading (`InvalidImplicitConst`: the abbreviation
 carries no constant for an indirect form) but accepted — as zero bytes — by skipping. The input
@@ -103,6 +144,29 @@ theorem form_value_roundtrip_partial (enc : Encoding) (spec : Spec) (p : Payload
   unfold parseAttribute
   rw [parseLoop_succ_direct _ _ _ _ _ hni]
   exact parseDirect_roundtrip enc spec spec.form p bytes rest henc hs (fun h => ⟨h, himp h⟩)
+
+/-- **`indirect_roundtrip_partial`.** `DW_FORM_indirect`, nested to any depth: the attribute is
+written as `k` times the code of `DW_FORM_indirect` (k ≥ 0), the ULEB128 code of the real form,
+and that form's encoding. Decoding yields the real form's value and class and consumes exactly
+those bytes — for every known real form except `DW_FORM_sdata` (same gap as above) and
+`DW_FORM_implicit_const` (which is not valid behind `DW_FORM_indirect`: the abbreviation holds no
+constant for it, see `indirect_implicit_const_asymmetry`). -/
+theorem indirect_roundtrip_partial (enc : Encoding) (spec : Spec) (hsp : spec.form = .indirect)
+    (k : Nat) (form : Form) (p : Payload) (bytes rest : Bytes)
+    (henc : encodeForm enc form p = some bytes) (hs : form ≠ .sdata) (hic : form ≠ .implicitConst) :
+    parseAttribute enc spec (indirectPrefix k form ++ bytes ++ rest) =
+      .ok (⟨rawKind enc spec.name form, p⟩, rest) := by
+  have hni : form ≠ .indirect := by intro hi; rw [hi] at henc; simp [encodeForm] at henc
+  have hk : form.Known := by
+    cases form <;> first | trivial | (simp [encodeForm] at henc)
+  have hl := indirectPrefix_length k form
+  unfold parseAttribute
+  rw [hsp, List.append_assoc]
+  obtain ⟨m, hm⟩ : ∃ m, (indirectPrefix k form ++ (bytes ++ rest)).length + 1 = k + 2 + m :=
+    ⟨(indirectPrefix k form ++ (bytes ++ rest)).length + 1 - (k + 2), by
+      simp only [List.length_append] at hl ⊢; omega⟩
+  rw [hm, parseLoop_indirect_chain enc spec form hk hni k m (bytes ++ rest)]
+  exact parseDirect_roundtrip enc spec form p bytes rest henc hs (fun h => absurd h hic)
 
 /-- and the encoded size is what the size table advertises, whenever it advertises one -/
 theorem encoded_size_eq_advertised (enc : Encoding) (spec : Spec) (p : Payload) (bytes : Bytes) (n : Nat)
